@@ -15,6 +15,22 @@ macro_rules! backend_mod {
             pub const BE_NAME: &str = $name;
             pub const IS_FFT64: bool = $fft;
             include!("hal_common.rs");
+            pub mod hal_ops {
+                use super::*;
+                include!("hal_ops.rs");
+            }
+            pub mod c11 {
+                use super::*;
+                include!("props/c11.rs");
+            }
+            pub mod c12 {
+                use super::*;
+                include!("props/c12.rs");
+            }
+            pub mod c17 {
+                use super::*;
+                include!("props/c17.rs");
+            }
             pub mod c07 {
                 use super::*;
                 include!("props/c07.rs");
@@ -58,6 +74,103 @@ macro_rules! on_backends {
     }};
 }
 
+/// C10 — all backends give bit-identical results: the same (op, n, seed) case is executed on two backends and the
+/// coefficient-domain outputs (and the next draw of the random stream for sampling ops) are compared.
+mod c10 {
+    use super::*;
+    use pvm::util::Rng;
+
+    fn pairs() -> Vec<(&'static str, &'static str)> {
+        let mut v = vec![("fft64ref", "ntt120ref")];
+        if cfg!(feature = "avx") {
+            v.push(("fft64ref", "fft64avx"));
+            v.push(("ntt120ref", "ntt120avx"));
+            v.push(("fft64avx", "ntt120avx"));
+        }
+        v
+    }
+
+    macro_rules! run_on {
+        ($be:expr, $op:expr, $n:expr, $seed:expr, $opts:expr, $f:expr) => {{
+            match $be {
+                "fft64ref" => {
+                    let o = fft64ref::hal_ops::run_case($op, $n, $seed, &fft64ref::hal_ops::Opts { fill_seed: $opts, ..Default::default() });
+                    $f(o.desc, o.key, o.panic, o.coeff, o.nontrivial)
+                }
+                "ntt120ref" => {
+                    let o = ntt120ref::hal_ops::run_case($op, $n, $seed, &ntt120ref::hal_ops::Opts { fill_seed: $opts, ..Default::default() });
+                    $f(o.desc, o.key, o.panic, o.coeff, o.nontrivial)
+                }
+                #[cfg(feature = "avx")]
+                "fft64avx" => {
+                    let o = fft64avx::hal_ops::run_case($op, $n, $seed, &fft64avx::hal_ops::Opts { fill_seed: $opts, ..Default::default() });
+                    $f(o.desc, o.key, o.panic, o.coeff, o.nontrivial)
+                }
+                #[cfg(feature = "avx")]
+                "ntt120avx" => {
+                    let o = ntt120avx::hal_ops::run_case($op, $n, $seed, &ntt120avx::hal_ops::Opts { fill_seed: $opts, ..Default::default() });
+                    $f(o.desc, o.key, o.panic, o.coeff, o.nontrivial)
+                }
+                _ => unreachable!(),
+            }
+        }};
+    }
+
+    type Res = (util::J, String, Option<String>, Vec<i128>, bool);
+
+    fn exec(be: &str, op: &'static str, n: usize, seed: u64, fill: u64) -> Res {
+        run_on!(be, op, n, seed, fill, |d, k, p, c, nt| (d, k, p, c, nt))
+    }
+
+    pub fn run(cfg: &Cfg, rep: &mut Report) {
+        let mut rng: Rng = cfg.rng("c10");
+        let total = cfg.budget(400_000, 20_000_000);
+        let ops = fft64ref::hal_ops::HAL_OPS;
+        let prs = pairs();
+        let ns_coef: &[usize] = &[1, 2, 3usize.next_power_of_two(), 8, 16, 32, 64];
+        let ns_dft: &[usize] = &[8, 16, 32, 64, 128];
+        for it in 0..total {
+            let op = ops[(it as usize + rng.below(7) as usize) % ops.len()];
+            let (a, b) = prs[rng.below(prs.len() as u64) as usize];
+            let n = if fft64ref::hal_ops::op_needs_dft(op) { *rng.pick(ns_dft) } else { *rng.pick(ns_coef) };
+            let seed = rng.next_u64();
+            let ra = exec(a, op, n, seed, 7);
+            if ra.1.is_empty() {
+                continue;
+            }
+            let rb = exec(b, op, n, seed, 9);
+            let mut desc = ra.0.clone();
+            desc.put("backend_b", b);
+            desc.put("pair", format!("{a}/{b}"));
+            let cross_family = a.starts_with("fft64") != b.starts_with("fft64");
+            desc.put("cross_family", cross_family);
+            let key = format!("{}|{b}", ra.1);
+            rep.case(op, &key, ra.4);
+            rep.sample_for_op(&format!("{a}/{b}:{op}"), || desc.clone());
+            rep.count(&format!("pair:{a}/{b}"), 1);
+            match (&ra.2, &rb.2) {
+                (None, None) => {
+                    if ra.3 != rb.3 {
+                        let pos = ra.3.iter().zip(&rb.3).position(|(x, y)| x != y).unwrap_or(ra.3.len().min(rb.3.len()));
+                        rep.violate(
+                            op,
+                            desc,
+                            format!(
+                                "coefficient-domain outputs differ between {a} and {b} at flattened index {pos} of {} ({:?} vs {:?})",
+                                ra.3.len(),
+                                ra.3.get(pos),
+                                rb.3.get(pos)
+                            ),
+                        );
+                    }
+                }
+                (Some(p), None) | (None, Some(p)) => rep.violate(op, desc, format!("only one of {a}/{b} panicked: {p}")),
+                (Some(_), Some(_)) => rep.count("both_panicked", 1),
+            }
+        }
+    }
+}
+
 fn main() {
     install_panic_hook();
     let args: Vec<String> = std::env::args().skip(1).collect();
@@ -74,6 +187,10 @@ fn main() {
     let t0 = std::time::Instant::now();
     match cfg.prop.as_str() {
         "c07" => on_backends!(&cfg, &mut rep, c07),
+        "c10" => c10::run(&cfg, &mut rep),
+        "c11" => on_backends!(&cfg, &mut rep, c11),
+        "c12" => on_backends!(&cfg, &mut rep, c12),
+        "c17" => on_backends!(&cfg, &mut rep, c17),
         "c08" => on_backends!(&cfg, &mut rep, c08),
         "c09" => on_backends!(&cfg, &mut rep, c09),
         other => {
